@@ -25,7 +25,7 @@ CLAIMED = {
    text="Theorems: C03_default_of_eq_walk (default_of = the inheritance walk for every mapping: chains, forks, cycles, self-loops; fuel m.length+1 suffices), C03_compute_partition/_disjoint/_covers (match arms), "
         "C03_mapping_iff (a locale is mapped iff its value is null/absent, all depths), C03_subkeys_uniform, C03_fallback_end_to_end (through check_locales_inner), C03_default_never_defaults. "
         "Correspondence: effective locale reported by the real DefaultedLocales for every key x locale vs an independent walk over inherits and the files' presence pattern; exhaustive over all inherits maps on 4 locales x presence patterns in the thorough tier.",
-   note=BASE + "Foreign keys to a null/absent target jump to the default locale ignoring inherits (finding F11, outside this check's generator: fk disabled).", tech=P, ref="§6 C03, notes/C03.md"),
+   note=BASE + "Foreign keys read their target along the same walk since fix 4bd75c2 (C06_target_from_fallback_walk; checked by C06).", tech=P, ref="§6 C03, notes/C03.md"),
  "C04": dict(
    text="Theorems: C04_do_match_meaning (do_match = interval membership for every range shape, all ten types, exact decimals), C04_new_simple_int/_incl_int/_open_int/_float (what Range::new returns: a..b means x<=n<y via checked_sub, "
         "InvalidBoundEnd iff y=MIN, ImpossibleRange iff empty), C04_new_never_empty, C04_match_first + C04_parse_time_eq_run_time (find_value = first matching branch = what the generated match renders), C04_count_for_cases (30 literal x type cases), "
@@ -41,7 +41,7 @@ CLAIMED = {
    text="Theorems: C06_populate_subst (eval of populate v args = eval of v under the substituted environment: variables, literal counts fixing the branch, renamed counts; mutual induction over all value kinds), C06_populate_chain, "
         "C06_resolveNode_sound, C06_resolved_no_notset, C06_resolve_missing/_cycle/_self_reference/_two_cycle, C06_populate_errors (subkey target rejected), C06_resolve_fuel_monotone, C06_resolveAll_memo + C06_order_independent(_perm/_leaf/_eval/_full_of_wf) (Theorems/C06Order.lean: the resolved values are a function of the original world, whatever the order and the fuel in which resolve_foreign_keys visits the keys), C06_resolveAll_repeat (idempotent). "
         "Correspondence: reference graphs (chains to depth 6, every argument kind, targets of every kind, namespaces, null targets) and all cyclic graphs on <=3 (4) keys: the referencing key's denotation = target's denotation under substitution.",
-   note=BASE + "Order independence is proved for worlds satisfying WorldWF (distinct keys per locale — what decoding produces); leaf equality, not pointer identity of shared cells. Known finding F11/F20 (null/absent target in an inheriting locale) recorded.", tech=P, ref="§6 C06, notes/C06.md"),
+   note=BASE + "Order independence is proved for worlds satisfying WorldWF (distinct keys per locale — what decoding produces); leaf equality, not pointer identity of shared cells. F11/F20 (null/absent target in an inheriting locale) are fixed (4bd75c2): C06_target_from_fallback_walk states that a reference reads its target in the effective locale of C03, C06_args_in_reference_locale that arguments and plural category stay in the locale of the reference.", tech=P, ref="§6 C06, notes/C06.md"),
  "C07": dict(
    text="Theorems: C07_builder_keys_eq_default, C07_merge_preserves_keys/_tree, C07_warnings_exact_flat/_nested, C07_check_warnings_exact (the warnings of check_locales_inner are exactly the spec list, in order), C07_no_warning_for_default, "
         "C07_warnings_nodup_flat, C07_inherits_silences_missing, C07_suppress_silences_surplus, C07_subkey_mismatch_error. Correspondence: both feature builds (suppress_key_warnings on/off): emitted warnings as a multiset vs the set computed independently from the files.",
